@@ -248,6 +248,11 @@ def prelude_items():
             if n == 'char':
                 for ch in 'aZ0~@{':
                     items.append(make_item(E.lit(ord(ch), 'char'), None, ['lit:char']))
+                # a blank or a tab between the quotes is that character (32, 9), not spacing
+                for ch in ' \t':
+                    items.append(make_item(E.lit(ord(ch), 'char'), None, ['lit:char', 'lit:char-blank-or-tab']))
+                    items.append(make_item(['bin', '+', E.lit(ord(ch), 'char'), num(1)], None, ['lit:char', 'lit:char-blank-or-tab']))
+                    items.append(make_item(['bin', '*', num(2), E.lit(ord(ch), 'char')], None, ['lit:char', 'lit:char-blank-or-tab']))
                 break
             items.append(make_item(E.lit(v, n), None, ['lit:' + n]))
             items.append(make_item(['bin', '+', E.lit(v, n), num(1)], None, ['lit:' + n]))
@@ -358,7 +363,7 @@ class C07(core.Check):
     required_buckets = {b: 3 for b in [
         'pair:cross-level', 'pair:same-level', 'neg:leading-then-binop', 'neg:after-operator-then-binop',
         'neg:before-parenthesis', 'neg:doubled', 'lit:dec', 'lit:dollar', 'lit:0x', 'lit:H', 'lit:pct', 'lit:b',
-        'lit:char', 'lit:leading-zeros', 'byte:negative', 'byte:beyond-length', 'trunc:positive', 'trunc:negative', 'real-quotient',
+        'lit:char', 'lit:char-blank-or-tab', 'lit:leading-zeros', 'byte:negative', 'byte:beyond-length', 'trunc:positive', 'trunc:negative', 'real-quotient',
         'malformed:drop-operand', 'malformed:double-operator', 'malformed:unbalance', 'malformed:juxtapose',
         'malformed:trailing-operator', 'malformed:unclosed-func', 'malformed:foreign-char', 'channel:cli', 'channel:cli-offset-behind-a-minus', 'channel:cli-offset-behind-a-plus',
         'channel:cli-malformed', 'channel:direct', 'channel:cli-operand']}
